@@ -700,7 +700,13 @@ func (g *Gen) scenario(p *Profile) {
 						g.confirmed[bi] = true
 						g.emit(fmt.Sprintf("playminer %d fault=1", bi))
 						g.emit("cmpcopy")
-						g.emit(fmt.Sprintf("playminer %d", bi))
+						// the process keeps running: the block is in the ledger, the state machine is not on it - the miner's
+						// next round synchronises by walking to the ledger tip; or the play is tried again
+						if g.r.Chance(1, 2) {
+							g.emit(fmt.Sprintf("walk %d", bi))
+						} else {
+							g.emit(fmt.Sprintf("playminer %d", bi))
+						}
 					}
 				} else if st == e.ledgerTip() {
 					bi := len(w.Blocks)
